@@ -109,6 +109,13 @@ def run(spec, tier, seed, t0):
                          spec.assumptions, time.time() - t0, 1)
         return 1
     ob = C.property_obligations(P)
+    chk = None
+    if tier == "thorough":
+        clean, summary = C.coqchk(P)
+        chk = summary
+        if not clean:
+            ob["ok"] = False
+            ob["problems"].append("coqchk does not report a clean context: %s" % summary[:600])
     C.build_checker()
     ok, out = C.build_harness()
     if not ok:
@@ -191,7 +198,7 @@ def run(spec, tier, seed, t0):
         obligations=nthm, discharged=nthm if ob["ok"] else 0,
         checker_cmd="cd /verif/coq && make -j16 theories/Properties/%s.vo  (coqc 8.16.1 full .vo build; Print Assumptions re-read every run)" % P,
         trusted_base=C.TRUSTED_BASE,
-        theorems=ob["theorems"], examples=ob["examples"], print_assumptions=ob["assumptions"],
+        theorems=ob["theorems"], examples=ob["examples"], print_assumptions=ob["assumptions"], coqchk=chk,
         evaluations=len(lines), distinct_nontrivial=nontrivial, rule=spec.rule,
         traces_validated_against_impl=len(lines), correspondence_mismatches=len(cor_fail), monitor_failures=len(mon_fail),
         in_coq_crosscheck="%s; %s" % (d1, d2), generator=stats, corpus_cases=len(corpus),
